@@ -246,5 +246,33 @@ Fixpoint eq_bools (a b : list bool) : bool :=
   | x :: a', y :: b' => eqb x y && eq_bools a' b'
   | _, _ => false
   end.
+Definition hint_eqb (a b : hint) : bool :=
+  (h_width a =? h_width b) && eqb (h_signed a) (h_signed b) &&
+  (fst (h_dom a) =? fst (h_dom b)) && (snd (h_dom a) =? snd (h_dom b)).
+Definition vbit_eqb (a b : vbit) : bool :=
+  match a, b with
+  | VName i, VName j => Nat.eqb i j
+  | VConst x, VConst y => eqb x y
+  | _, _ => false
+  end.
+Fixpoint list_eqb {A} (e : A -> A -> bool) (a b : list A) : bool :=
+  match a, b with
+  | [], [] => true
+  | x :: a', y :: b' => e x y && list_eqb e a' b'
+  | _, _ => false
+  end.
+Definition opt_eqb {A} (e : A -> A -> bool) (a b : option A) : bool :=
+  match a, b with
+  | Some x, Some y => e x y
+  | None, None => true
+  | _, _ => false
+  end.
+(* equality of two index -> bool dictionaries as maps *)
+Definition natdict_eqb (a b : list (nat * bool)) : bool :=
+  Nat.eqb (length a) (length b) &&
+  forallb (fun kv => match dict_get Nat.eqb (fst kv) b with
+                     | Some v => eqb v (snd kv)
+                     | None => false
+                     end) a.
 Definition zrange (lo hi : Z) : list Z :=
   map (fun i => lo + Z.of_nat i) (seq 0 (Z.to_nat (hi - lo + 1))).
